@@ -14,6 +14,7 @@
    proposal mass one: C08; symmetric ESS criterion) - those are checked on the implementation by the exact
    transition matrices of harness/pv/props/C01.py. *)
 From PV Require Import Model.Isir Proofs.IsirProofs Model.Csmc Proofs.CsmcSupport Proofs.CsmcInvariant Proofs.AuxVar Proofs.CsmcTarget Proofs.PgAssembly.
+From PV Require Import Model.Grammar Model.Proposals Proofs.GrammarTable Proofs.GrammarPG.
 
 Theorem C01_csmc_invariant :
   forall (A : Type) (q : list A -> dist A) (om : list A -> Qc) (rs : @swarm A -> bool) (n : nat),
@@ -67,6 +68,46 @@ Example C01_pg_update_premises_satisfiable :
                (fun _ => ex_dec) (fun _ => ex_enc) (fun _ => true) 2 [Res; Upd]).
 Proof. exact ex_invariant. Qed.
 Print Assumptions C01_pg_update_premises_satisfiable.
+
+(* The same update over the REAL grammar: states = clone forests over n data points (relation tables, [forests n on]),
+   auxiliary variable = all n! data orders with the uniform law on the compatible ones, alphabet at every step =
+   C08's [all_places] for the current number of top-level clones.  Premises (i) "complete paths along an order = forests
+   compatible with it", (iii) "order densities sum to one" and the retained-path premise of C01_pg_update_invariant
+   are proved (Proofs/Grammar{Sound,Complete,Unique,Table,PG}.v); what remains is about the proposal (positive, unit mass
+   over all_places: the C08 density theorems), the symmetric criterion, and the weights being target ratios ending in
+   gamma x 1/#compatible orders (C08_weights_telescope, C09_density_is_inverse_count). *)
+Theorem C01_pg_update_invariant_over_grammar :
+  forall (n : nat) (on : bool) (gam : list (list bool) -> Qc) (qp : list nat -> list place -> place -> Qc)
+         (g : list nat -> list place -> Qc) (rs : @swarm place -> bool) (N : nat) (ops : list op),
+    S (count_upd ops) = n ->
+    (forall sg p a, 0 < qp sg p a) -> (forall sg p, 0 < g sg p) ->
+    (forall sg p, sumq (map (qp sg p) (gsup on sg p)) = 1) ->
+    (forall m s, rs (bring m s) = rs s) ->
+    (forall sg path, In sg (gorders n) -> In path (gpaths n on sg) ->
+       g sg (rev path) = gam (gdec n sg (rev path)) * gcden n sg (gdec n sg (rev path))) ->
+    invariant (wlist gam (forests n on)) (pg_update (gorders n) (gcden n) (gsup on) qp g (gdec n) (genc n on) rs N ops).
+Proof. exact pg_update_invariant_grammar. Qed.
+Print Assumptions C01_pg_update_invariant_over_grammar.
+
+(* a closed instance for every n, outlier setting, positive target, particle count and schedule: uniform proposals over
+   all_places and the corresponding target-ratio weights - no premise about proposal or weights is left *)
+Theorem C01_pg_update_over_grammar_closed_instance :
+  forall (n : nat) (on : bool) (gam : list (list bool) -> Qc), (forall t, 0 < gam t) ->
+  forall (rs : @swarm place -> bool) (N : nat) (ops : list op),
+    S (count_upd ops) = n -> (forall m s, rs (bring m s) = rs s) ->
+    invariant (wlist gam (forests n on))
+      (pg_update (gorders n) (gcden n) (gsup on) (uq on) (gtarget n gam) (gdec n) (genc n on) rs N ops).
+Proof. exact pg_update_grammar_closed. Qed.
+Print Assumptions C01_pg_update_over_grammar_closed_instance.
+
+(* the state space and the order density are what they should be on small cases: 42 forests with outliers over three
+   points (26 without), and the chain 1 <- 0 has exactly one compatible order out of two *)
+Example C01_grammar_state_space_example :
+  length (forests 3%nat true) = 42%nat /\ length (forests 3%nat false) = 26%nat /\ length (forests 2%nat true) = 7%nat
+  /\ gcden 2%nat [0; 1]%nat [[true; false]; [true; true]] = 1 /\ gcden 2%nat [1; 0]%nat [[true; false]; [true; true]] = 0
+  /\ gcden 2%nat [0; 1]%nat [[true; false]; [false; true]] = Q2Qc (1 # 2).
+Proof. repeat split; vm_compute; reflexivity. Qed.
+Print Assumptions C01_grammar_state_space_example.
 
 (* no step of the conditional sampler can lose mass *)
 Theorem C01_pg_kernel_total_mass :
